@@ -188,9 +188,12 @@ def run(argv):
             src = "".join(p.read_text() for p in (path / "src").glob("*.c*"))
             calls = len(re.findall(r"\bEvalRates\(k,", src))
             inits = len(re.findall(r"\bk\[NREACTIONS\]\s*=\s*\{\s*0\.0\s*\}", src))
-            if calls == 0 or inits < calls:
+            # (an initialiser of a `static` array runs once per process, not once per evaluation)
+            statics = len(re.findall(r"\bstatic\s+(?:const\s+)?(?:realtype|double)\s+k\[NREACTIONS\]", src))
+            if calls == 0 or inits - statics < calls:
                 chk.violation({"kind": "k-not-zero-initialised", "backend": b},
-                              f"{calls} EvalRates call sites but {inits} zero initialisers of k[]")
+                              f"{calls} EvalRates call sites but {inits - statics} per-call zero initialisers of k[]"
+                              + (f" ({statics} array(s) declared static)" if statics else ""))
             # compiled evaluation
             temps = sorted({t for r in R for t in probe_temps(r)})
             kvals = compiled_rates(chk, path, b, temps)
@@ -290,17 +293,37 @@ def run(argv):
 def compiled_rates(chk, path, backend, temps):
     files = [path / "src" / ("naunet_ode.cpp" if backend == "rosenbrock4" else "naunet_rates.cpp"),
              path / "src" / "naunet_physics.cpp", path / "src" / "naunet_constants.cpp", path / "src" / "naunet_utilities.cpp"]
+    if backend != "rosenbrock4":
+        files.append(path / "src" / "naunet_fex.cpp")
     exe = path / "c06"
-    ok, err = cbuild.build(path, ROOT / "shim" / "c06_driver.cpp", exe, backend, files=[f for f in files if f.exists()])
+    ok, err = cbuild.build(path, ROOT / "shim" / "c06_driver.cpp", exe, backend, files=[f for f in files if f.exists()],
+                           defines=["C06_ODEINT"] if backend == "rosenbrock4" else [])
     if not ok:
         chk.violation({"kind": "does-not-compile", "backend": backend}, "rendered rate sources do not compile against the shim", error=err[-1200:])
         return None
-    r = subprocess.run([str(exe)], input="\n".join(repr(t) for t in temps) + "\n", capture_output=True, text=True, timeout=300)
-    lines = r.stdout.strip().split("\n")
-    if r.returncode != 0 or len(lines) != len(temps):
-        chk.violation({"kind": "driver-crash", "backend": backend}, f"compiled EvalRates crashed rc={r.returncode}", stderr=r.stderr[-500:])
+
+    def run_seq(seq):
+        r = subprocess.run([str(exe)], input="\n".join(repr(t) for t in seq) + "\n", capture_output=True, text=True, timeout=300)
+        lines = r.stdout.strip().split("\n")
+        if r.returncode != 0 or len(lines) != len(seq):
+            chk.violation({"kind": "driver-crash", "backend": backend}, f"compiled EvalRates / Fex crashed rc={r.returncode}", stderr=r.stderr[-500:])
+            return None
+        return [l.split("|") for l in lines]
+    fwd = run_seq(temps)
+    if fwd is None:
         return None
-    return [[float(x) for x in l.split()] for l in lines]
+    # the right-hand side at a temperature does not depend on the temperatures it was evaluated at before: the same
+    # temperatures in reverse order, in another process, must give the same derivatives
+    rev = run_seq(list(reversed(temps)))
+    if rev is not None:
+        for t, a, b in zip(temps, fwd, reversed(rev)):
+            if a[1].split() != b[1].split():
+                chk.violation({"kind": "rhs-depends-on-history", "backend": backend},
+                              f"the compiled right-hand side at T={t!r} differs when the temperatures are visited in another order "
+                              f"(a rate coefficient of an inactive window is carried over from an earlier evaluation)",
+                              forward=a[1].split()[:6], reverse=b[1].split()[:6])
+                break
+    return [[float(x) for x in l[0].split()] for l in fwd]
 
 
 if __name__ == "__main__":
